@@ -23,10 +23,10 @@ RULES = {"DROP": 1, "INVOKE": 2, "SUPER_INVOKE": 4, "SET_GET_LOCAL": 8, "SET_GET
 ALL = 4095
 
 
-def windows(max_len, reduced_len, nshards=16):
+def windows(max_len, reduced_len, nshards=16, tiny_len=0):
     procs = []
     for sh in range(nshards):
-        procs.append(subprocess.Popen([R.BIN["checked"], "windows", str(max_len), str(sh), str(nshards), str(reduced_len)],
+        procs.append(subprocess.Popen([R.BIN["checked"], "windows", str(max_len), str(sh), str(nshards), str(reduced_len), str(tiny_len)],
                                       stdout=subprocess.PIPE, stderr=subprocess.DEVNULL))
     tot = {"windows": 0, "rewritten": 0, "skipped_by_invariant": 0, "bad_count": 0, "bad": [], "samples": [], "alphabet": 0}
     ok = True
@@ -92,7 +92,7 @@ class C12(Check):
 def main(tier):
     t0 = time.time()
     th = tier == "thorough"
-    ok, w = windows(5 if th else 4, 6 if th else 5)
+    ok, w = windows(5 if th else 4, 6 if th else 5, tiny_len=(8 if th else 6))
     if not ok:
         print("MACHINERY: window explorer failed")
         return 2
@@ -103,10 +103,10 @@ def main(tier):
     except ImportError:
         pass
     chk = C12(progs)
-    chk.rule = ("(a) all windows of length <= %d over a %d symbol alphabet (+ length <= %d over its 24 symbol core, + consecutive-drop family) "
+    chk.rule = ("(a) all windows of length <= %d over a %d symbol alphabet (+ length <= %d over its 24 symbol core, + length <= %d over a 13 symbol core with one trigger of every rule, a jump, its label and a return, + consecutive-drop family) "
                 "satisfying the compiler invariants, through the real optimiser and the symbolic stack machine; (b) recorded real optimiser "
                 "runs of every corpus program; (c) corpus programs with each of 11 rules masked and all masked. non-trivial = corpus program "
-                "with at least one function the optimiser rewrote (windows rewritten are reported separately)" % (5 if th else 4, w["alphabet"], 6 if th else 5))
+                "with at least one function the optimiser rewrote (windows rewritten are reported separately)" % (5 if th else 4, w["alphabet"], 6 if th else 5, 8 if th else 6))
     merged = explore(chk, tier, cap_s=900)
     extra_v = []
     if w["bad_count"]:
